@@ -15,6 +15,23 @@ pub fn do_divition(left: f64, right: f64) -> f64 {
     calculation
 }
 
+/* Lower or upper case copy of a text in which every character keeps its byte length, the positions found in the copy are used on the original text ('İ' and 'ı' change their length when their case changes, they are left as they are) */
+pub fn change_case_keep_positions(text: &str, to_upper: bool) -> String {
+    let mut result = String::with_capacity(text.len());
+    for ch in text.chars() {
+        let changed: String = match to_upper {
+            true => ch.to_uppercase().collect(),
+            false => ch.to_lowercase().collect()
+        };
+
+        match changed.len() == ch.len_utf8() {
+            true => result.push_str(&changed),
+            false => result.push(ch)
+        };
+    }
+    result
+}
+
 pub fn parse_timezone<'t>(config: &SmartCalcConfig, capture: &regex::Captures<'t>) -> Option<(String, i32)> {
     match capture.name("timezone_1") {
         Some(tz) => {
